@@ -10,7 +10,9 @@ CLAIMED = {
          "Rocq proof (Galois adjunction) + translator + differential correspondence"),
  "C06": ("proof", "Coq theorems: the translated fix_offset equals the mathematical border rule in all six modes (for all "
          "coordinates and lengths) and the generic convolution model equals the defining sum for any dimension and kernel shape; "
-         "the model (incl. an executable model of the native 1-D fast-path loops) is run against the fresh build in the regime "
+         "the native convolve1d fast path (interior loop + border loop over an uninitialised output row) yields the defining sum at "
+         "every column for every mode, row and kernel shorter than the row, whatever the buffer held; "
+         "the model (incl. the executable model of those loops) is run against the fresh build in the regime "
          "where double arithmetic is exact, over dtypes, layouts, modes, every axis (+/-) and both convolve1d paths; Gaussian "
          "filters are compared with convolve1d chains using the documented weights (tolerance, support only)",
          "Rocq proof + translator + differential correspondence (exact-arithmetic regime)"),
@@ -30,9 +32,11 @@ CLAIMED = {
          "of that label (hence sum; max/min for regions not beyond the identity element, negative and floating values included); "
          "histogram = value counts; relabel preserves partition and background and numbers 1..n in scan order of first appearance "
          "(shared renumbering lemma); remove_regions zeroes exactly the selected regions; borders marks a pixel iff a neighbour under the "
-         "mathematical border rule differs (any dimension/mode/neighbourhood, through the re-translated fix_offset). is_same_labeling, "
-         "bbox (both paths), labeled.bbox and center_of_mass have executable models compared with executable Coq specifications and with "
-         "the fresh build on generated inputs",
+         "mathematical border rule differs (any dimension/mode/neighbourhood, through the re-translated fix_offset); is_same_labeling "
+         "(two insert-if-absent maps) decides exactly whether the pixelwise pairs form a bijection of label sets fixing 0; the "
+         "generic N-D bbox scan returns the tight box of the non-zero positions (zeros when empty). The 2-D skip-ahead bbox path, "
+         "labeled.bbox and center_of_mass have executable models compared with executable Coq specifications and with the fresh "
+         "build on generated inputs",
          "Rocq proof + translator + differential correspondence"),
  "C03": ("proof", "Coq theorems (any dimension, any connectivity element): the joins performed by the scan are exactly the "
          "in-image adjacencies of the property (through the re-translated fix_offset in constant mode); the label map is 0 "
@@ -43,9 +47,14 @@ CLAIMED = {
          "Rocq proof + translator + differential correspondence"),
  "C14": ("proof", "Coq theorems: locmax/locmin mark a pixel iff no non-centre member of the neighbourhood (edge-replicated) is strictly "
          "better (any dimension/neighbourhood); regional extrema are a subset of local ones (the flood only clears marks); hitmiss "
-         "= (whole template inside and all 0/1 entries coincide) for every template with odd sides in any dimension. Regional "
-         "extrema and close_holes floods are executable models compared with executable Coq specifications built on the proved "
-         "quick-find closure (plateaus / border-connected background), on generated and exhaustive small inputs, and with the fresh build",
+         "= (whole template inside and all 0/1 entries coincide) for every template with odd sides in any dimension; close_holes: the "
+         "stack-based flood marks exactly the background reachable from a border background pixel through the neighbourhood (any "
+         "image, neighbourhood and dimension; worklist invariant, fuel shown sufficient), so exactly the unreachable background is "
+         "filled; regmax/regmin (scan + floods of remove_fake_regmin_max) for symmetric neighbourhoods: what is kept is plateau-closed "
+         "(a marked pixel has no unmarked weakly-better in-image neighbour) and no regional extremum is ever discarded, i.e. the "
+         "result is the GREATEST set of local extrema whose outside neighbours are strictly worse = the union of the "
+         "regional-extremum plateaus (the unmarking flood is related to the marking flood by complementing the marks). All "
+         "models are compared with executable specifications and with the fresh build on generated and exhaustive small inputs",
          "Rocq proof + translator + differential correspondence"),
  "C04": ("proof", "Coq theorems (any dimension, neighbourhood, marker set): the code's flood -- flat-delta neighbour table, stored "
          "lower-bound margins that skip bounds checks, zero-delta entries dropped -- equals, labels and lines, the flood that checks "
@@ -54,13 +63,15 @@ CLAIMED = {
          "queue order is the re-translated operator<. Model, checked flood and an independent heap-based evaluation of the "
          "definition are compared with the fresh build (incl. dirty-heap worker processes) on generated and exhaustive inputs",
          "Rocq proof (simulation + invariants) + translator + differential correspondence"),
- "C05": ("proof", "Coq theorems (any dimension and shape): one min-plus pass per axis yields at every pixel the minimum over the whole "
-         "grid of squared Euclidean distance + initial value (induction over the axes; the 1-D pass is a parameter with its "
-         "specification); with distance.py's initial values that is 0 on the background, exactly the least squared distance to the "
-         "background when there is one, and larger than every attainable distance when there is none. The lower-envelope pass of "
-         "_distance.cpp is an executable model (exact rational comparisons) proved equal to the min-plus specification on a finite "
-         "sweep and compared with it on every generated line; results are compared exactly with brute force and with the model",
-         "Rocq proof + finite sweep + differential correspondence (exact integers)"),
+ "C05": ("proof", "Coq theorems, all for every input: the lower-envelope pass of _distance.cpp (parabola stack with exact rational "
+         "intersection tests, then the forward sweep; executable model) returns at every position the minimum over p of "
+         "(q-p)^2 + f[p] (invariants of the stack: abscissae increasing, every removed parabola dominated; fuel of the sweep shown "
+         "sufficient) and equals the executable min-plus specification; one such pass per axis yields at every pixel the minimum "
+         "over the whole grid of squared Euclidean distance + initial value (induction over the axes); hence distance() of the "
+         "model is 0 on the background, exactly the least squared distance to a background pixel elsewhere, and larger than every "
+         "attainable distance when there is no background - any dimension, any shape. The model is tied to the code by exact "
+         "differential correspondence on generated lines and images (and both to brute force)",
+         "Rocq proof (envelope invariant + induction over axes) + differential correspondence (exact integers)"),
  "C16": ("proof", "Coq theorems on element functions RE-TRANSLATED from thresholding.py on every run (Python ast -> Gallina over Q, "
          "np.choose orientation preserved): gbernsen follows the Bernsen rule in both contrast regimes; soft_threshold shrinks by "
          "tval and zeroes small magnitudes. The first-maximiser search returns a maximiser of the exact between-class variance; the "
@@ -89,11 +100,12 @@ CLAIMED = {
          "numerically on the fresh build",
          "Rocq proof + finite table check + translator + differential correspondence (exact integer regime)"),
  "C18": ("proof", "Coq theorems over Q about an exact model of zoom_shift (real-valued border mapping, B-spline weights, mirrored edge "
-         "indices): in-range coordinates are untouched by every border mode; order-1 weights sum to one for every real coordinate; "
+         "indices): in-range coordinates are untouched by every border mode; the B-spline weights of orders 1, 2, 3 and 4 sum to one for "
+         "every real coordinate, hence a constant signal is reproduced exactly at every in-range coordinate in every order and mode; "
          "order 1 is linear interpolation of the two neighbours and returns the sample at integer coordinates (zero shift / unit zoom "
          "= identity, integer shift = translation); zoom returns the requested length and maps corners to corners. The model (orders "
          "1-4, 5 modes, applied along every axis) is compared with the fresh build in the exact regime (no prefilter); prefilter, "
-         "partition of unity for orders 2-4, resize shapes and corners are checked per case",
+         "resize shapes and corners are checked per case",
          "Rocq proof (Q) + differential correspondence (exact rational regime)"),
  "C19": ("proof", "Coq theorems: cooccurence counts exactly the ordered in-image pixel pairs at the offset (any dimension/distance, "
          "through the re-translated fix_offset in ignore mode and the per-label fold theorem); the SURF integral image recurrence is "
@@ -140,7 +152,8 @@ CLAIMED = {
          "exit path. The discipline is tied to the code by an inventory RE-TRANSLATED from all C++ and Python sources on every "
          "run: no static data, no namespace variable reassigned, every gil_release a stack object with the save/restore protocol, "
          "the only module-level Python state is a lazy table built in a local and published last, no module-level container is "
-         "mutated. Runtime half (support): thread-pool jobs in isolated processes - same arguments shared by 8 threads, one kernel "
+         "mutated; while the lock is released the kernels use only field-reading macros, exception type addresses and the "
+         "PythonException carrier of the Python C API. Runtime half (support): thread-pool jobs in isolated processes - same arguments shared by 8 threads, one kernel "
          "on different arguments (sizes to 320x320) after a raising call, mixes of 2-32 calls incl. raising ones, cold starts - "
          "compared bit-exactly with the solo outcomes, plus reference-count drift of the shared inputs",
          "Rocq proof (serial equivalence for all schedules) + source inventory translator + thread-pool differential runs"),
